@@ -297,6 +297,7 @@ theorem exec_step (s : Sys) (t : Nat) (op : Op) (hop : op.isCollectorOp = false)
   | toRecords x tr sp =>
     simp only [exec]
     cases assocGet s.lspans x <;> exact Step.refl s
+  | dropLocalSpans x => simp only [exec]; exact Step.withLspans _
   | stats =>
     simp only [exec]
     split <;> exact Step.refl s
